@@ -183,6 +183,51 @@ Definition ninv_check (s : state) : bool :=
 
 
 (* ------------------------------------------------------------------ *)
+(* Decidable forms of the hypotheses of Proofs/ConfQuiet.v (a call that returns Ok has an empty pool):
+   validity of the bench (capacities >= 1, connection targets exist, queries go to models with a larger
+   index) and well-formedness of a start state (no task is waiting for a reply). *)
+
+Definition is_action_op (o : op) : bool :=
+  match o with OEvent _ _ _ _ | OReq _ _ _ | OBcast _ _ => true | _ => false end.
+Definition op_target_ok (n : nat) (o : op) : bool :=
+  match o with OEvent m _ _ _ | OReq m _ _ => Nat.ltb m n | _ => true end.
+
+Definition conn_ok (n : nat) (c : conn) : bool :=
+  match ctgt c with TgtModel m _ => Nat.ltb m n | TgtSink _ => true end.
+Definition qconn_ok (n m : nat) (q : qconn) : bool := Nat.ltb m (qmodel q) && Nat.ltb (qmodel q) n.
+Definition model_valid (n m : nat) (sp : mspec) : bool :=
+  Nat.leb 1 (mcap sp) && forallb (forallb (conn_ok n)) (mouts sp) && forallb (forallb (qconn_ok n m)) (mreqs sp).
+Fixpoint models_valid (n m : nat) (l : list mspec) : bool :=
+  match l with [] => true | sp :: r => model_valid n m sp && models_valid n (S m) r end.
+Definition bench_valid_check (b : bench) : bool :=
+  bench_plain b && models_valid (length (bmodels b)) 0 (bmodels b) &&
+  forallb (forallb (conn_ok (length (bmodels b)))) (bsources b).
+
+Definition delivery_ok (n : nat) (d : delivery) : bool :=
+  match dtgt d with DModel m _ => Nat.ltb m n | DSink _ _ => true end.
+Definition task_ok_check (b : bench) (t : nat) (x : task) : bool :=
+  let n := length (bmodels b) in
+  match tfr x with
+  | None => true
+  | Some f => forallb (delivery_ok n) (fpend f) && match fwait f with [] => true | _ :: _ => false end
+  end &&
+  match tk x with
+  | TKModel m =>
+      Nat.eqb m t && Nat.ltb m n && negb (tdone x) &&
+      match tfr x with Some f => forallb op_plain (frest f) | None => true end
+  | TKAction =>
+      negb (tinit x) &&
+      match tfr x with
+      | Some f => forallb is_action_op (frest f) && forallb (op_target_ok n) (frest f)
+      | None => true
+      end
+  end.
+Fixpoint tasks_ok_check (b : bench) (t : nat) (l : list task) : bool :=
+  match l with [] => true | x :: r => task_ok_check b t x && tasks_ok_check b (S t) r end.
+Definition qinv_check (b : bench) (s : state) : bool :=
+  Nat.eqb (length (boxes s)) (length (bmodels b)) && tasks_ok_check b 0 (tasks s).
+
+(* ------------------------------------------------------------------ *)
 (* Executable check used by the correspondence runner (tools/props/confprops.py): on a plain bench, for
    init and for every process call of a command list, (1) the hypotheses of the confluence theorem hold
    at the start (ninv_check), (2) a call that returns Ok ends with an empty pool, and (3) the
@@ -205,7 +250,7 @@ Definition mset_eqb (l1 l2 : list cmsg) : bool :=
 
 Definition cm_logged (c : cmsg) : bool := negb (is_sink_msg c).
 
-Inductive cverdict := CvNA | CvOk (invocations : list cmsg) | CvBad (why : nat).
+Inductive cverdict := CvNA | CvOk (quiescence_proved : bool) (invocations : list cmsg) | CvBad (why : nat).
 
 Definition conf_run (b : bench) (fuel : nat) (s0 : state) (ch : list nat) : cverdict :=
   if negb (ninv_check s0) then CvNA
@@ -224,7 +269,8 @@ Definition conf_run (b : bench) (fuel : nat) (s0 : state) (ch : list nat) : cver
                   | None => CvBad 3
                   | Some L =>
                       let nw := firstn (length (invs (log s')) - length (invs (log s0))) (invs (log s')) in
-                      if mset_eqb nw (filter cm_logged L) then CvOk (filter cm_logged L) else CvBad 4
+                      if mset_eqb nw (filter cm_logged L) then CvOk (bench_valid_check b && qinv_check b s0) (filter cm_logged L)
+                      else CvBad 4
                   end
               end
             else CvNA
